@@ -183,6 +183,75 @@ fn deep_any_map(depth: usize) -> Vec<u8> {
     b
 }
 
+fn var_u(mut n: u64, out: &mut Vec<u8>) {
+    loop {
+        let b = (n & 0x7f) as u8;
+        n >>= 7;
+        if n != 0 {
+            out.push(b | 0x80);
+        } else {
+            out.push(b);
+            break;
+        }
+    }
+}
+
+/// "wide" lib0 v1 updates: element counts (not nesting depths) in the hundreds of thousands — code
+/// that walks blocks, clients or ranges recursively fails on these
+fn wide_update(kind: u8, n: usize) -> Vec<u8> {
+    let mut b = Vec::with_capacity(n * 4 + 16);
+    match kind % 5 {
+        // one client, n Skip blocks / n GC blocks of length 1
+        0 | 1 => {
+            var_u(1, &mut b);
+            var_u(n as u64, &mut b);
+            var_u(1, &mut b);
+            var_u(0, &mut b);
+            let info = if kind % 5 == 0 { 10u8 } else { 0u8 };
+            for _ in 0..n {
+                b.push(info);
+                b.push(1);
+            }
+            var_u(0, &mut b);
+        }
+        // n clients with one GC block each
+        2 => {
+            var_u(n as u64, &mut b);
+            for c in 0..n {
+                var_u(1, &mut b);
+                var_u(c as u64 + 1, &mut b);
+                var_u(0, &mut b);
+                b.push(0);
+                b.push(1);
+            }
+            var_u(0, &mut b);
+        }
+        // delete set with n clients of one range each
+        3 => {
+            var_u(0, &mut b);
+            var_u(n as u64, &mut b);
+            for c in 0..n {
+                var_u(c as u64 + 1, &mut b);
+                var_u(1, &mut b);
+                var_u(0, &mut b);
+                var_u(1, &mut b);
+            }
+        }
+        // delete set of one client with n separate ranges
+        _ => {
+            var_u(0, &mut b);
+            var_u(1, &mut b);
+            var_u(1, &mut b);
+            var_u(n as u64, &mut b);
+            for r in 0..n {
+                var_u(2 * r as u64, &mut b);
+                var_u(1, &mut b);
+            }
+        }
+    }
+    b
+}
+
 fn base_payload(entry: u8) -> BoxedStrategy<Vec<u8>> {
     let upd_v1 = payload_strategy().prop_map(|p| build(&p).0).boxed();
     let upd_v2 = payload_strategy()
@@ -205,6 +274,7 @@ fn base_payload(entry: u8) -> BoxedStrategy<Vec<u8>> {
                 b.push(0);
                 b
             }),
+            1 => (0u8..5, 1usize..300_000).prop_map(|(k, n)| wide_update(k, n)),
         ]
         .boxed(),
         1 | 20 => upd_v2,
@@ -355,6 +425,10 @@ pub fn input_strategy() -> BoxedStrategy<Input> {
 pub struct Worker {
     path: PathBuf,
     asan: bool,
+    /// the unoptimised worker: only stack overflows count (recursion the optimiser happens to turn
+    /// into a loop in the shipping build still kills debug builds of an application); its
+    /// debug-only assertion and overflow panics are not violations
+    crash_only: bool,
     child: Child,
     stdin: ChildStdin,
     stdout: BufReader<ChildStdout>,
@@ -392,7 +466,8 @@ impl Worker {
         let mut child = cmd.spawn()?;
         let stdin = child.stdin.take().unwrap();
         let stdout = BufReader::new(child.stdout.take().unwrap());
-        Ok(Worker { path: path.to_path_buf(), asan, child, stdin, stdout, stderr_path })
+        let crash_only = path.components().any(|c| c.as_os_str() == "debug");
+        Ok(Worker { path: path.to_path_buf(), asan, crash_only, child, stdin, stdout, stderr_path })
     }
 
     fn respawn(&mut self) {
@@ -424,6 +499,10 @@ impl Worker {
                 let rss: i64 = it.next().and_then(|x| x.parse().ok()).unwrap_or(0);
                 let cpu: i64 = it.next().and_then(|x| x.parse().ok()).unwrap_or(0);
                 let detail = it.next().unwrap_or("").to_string();
+                if self.crash_only {
+                    // only a crash of this worker counts
+                    return if outcome == "ok" { Outcome::Ok } else { Outcome::Err };
+                }
                 if outcome == "panic" {
                     return Outcome::Panic(detail);
                 }
@@ -446,11 +525,18 @@ impl Worker {
                 let _ = self.child.kill();
                 let status = self.child.wait().ok();
                 let stderr = std::fs::read_to_string(&self.stderr_path).unwrap_or_default();
-                let out = if killed {
+                let mut out = if killed {
                     Outcome::Hang
                 } else {
                     Outcome::Crash(crash_kind(&stderr, status))
                 };
+                if self.crash_only {
+                    // unoptimised code is slow and asserts a lot: only a stack overflow is a finding
+                    out = match out {
+                        Outcome::Crash(k) if k.contains("stack-overflow") => Outcome::Crash(format!("{}-unoptimised-build", k)),
+                        _ => Outcome::Err,
+                    };
+                }
                 self.respawn();
                 out
             }
@@ -533,6 +619,11 @@ pub fn worker_paths() -> Vec<(PathBuf, bool)> {
     let asan = Path::new(VERIF_ROOT).join("target/asan/x86_64-unknown-linux-gnu/ship/dec_worker");
     if asan.exists() {
         v.push((asan, true));
+    }
+    // the harness' own (dev profile) build of the worker: stack overflows only
+    let dev = Path::new(VERIF_ROOT).join("target/debug/dec_worker");
+    if dev.exists() {
+        v.push((dev, false));
     }
     v
 }
@@ -744,7 +835,7 @@ pub fn property() -> Property {
     Property {
         id: "C10",
         level: "exploration",
-        rule: "inputs = valid payloads of every decoding entry point (21 entries: update v1/v2, state vector, snapshot, delete set, sticky index binary/JSON, Any binary/JSON, MessageReader, awareness update, merge_updates, diff_updates, encode_state_vector_from_update; updates come from the independent payload builder of C09) with 0..2 generated mutations (truncation at any prefix, bit flip, byte set, substitution/insertion of extreme var-ints {0,1,127,128,2^14,2^28,2^31-1,2^32-1,2^53,2^63,10-byte max,overlong}, splice, duplication, random bytes) plus deep-nesting builders (Any arrays/maps, JSON, nested Any inside an update) up to 60 000 levels; every input is executed in an isolated process with shipping build settings and again under AddressSanitizer, each on a 2 MiB stack; outcomes other than value/error (panic, crash/sanitizer report, >64 MiB committed memory beyond 1 KiB per input byte, >20 s CPU, hang) are violations.  Non-trivial = the decoder returned a value, or the input is a valid payload with at most one local mutation (so it passes the outer framing); distinct = distinct (entry, bytes)".into(),
+        rule: "inputs = valid payloads of every decoding entry point (21 entries: update v1/v2, state vector, snapshot, delete set, sticky index binary/JSON, Any binary/JSON, MessageReader, awareness update, merge_updates, diff_updates, encode_state_vector_from_update; updates come from the independent payload builder of C09) with 0..2 generated mutations (truncation at any prefix, bit flip, byte set, substitution/insertion of extreme var-ints {0,1,127,128,2^14,2^28,2^31-1,2^32-1,2^53,2^63,10-byte max,overlong}, splice, duplication, random bytes) plus deep-nesting builders (Any arrays/maps, JSON, nested Any inside an update) up to 60 000 levels; wide updates (up to 300 000 Skip/GC blocks, clients or delete ranges); every input is executed in an isolated process with shipping build settings, again under AddressSanitizer, and in an unoptimised build (where only a stack overflow counts), each on a 2 MiB stack; outcomes other than value/error (panic, crash/sanitizer report, >64 MiB committed memory beyond 1 KiB per input byte, >20 s CPU, hang) are violations.  Non-trivial = the decoder returned a value, or the input is a valid payload with at most one local mutation (so it passes the outer framing); distinct = distinct (entry, bytes)".into(),
         assumptions: vec![
             "shipping configuration decides (debug-only overflow assertions are not violations)".into(),
             "memory is what the process commits (RSS high-water growth) or fails to obtain (abort), not the size passed to a fallible try_reserve".into(),
